@@ -166,8 +166,12 @@ def run(ctx):
         # dump targets
         for enc in encio.ENCODERS:
             og = gen.ObjGen(rng, enc)
-            for _ in range(12 if ctx.thorough() else 4):
-                m = og.module()
+            fixed = []
+            if enc in ("PVL", "ISIS"):
+                # characters beyond ASCII that the dialect allows: every target must carry the same (UTF-8) text
+                fixed = [io.PVLModule([("a", "caf\xe9"), ("b", io.Quantity(1.5, "\xb5m")), ("c", ["\xb0", "x"])])]
+            for k in range((12 if ctx.thorough() else 4) + len(fixed)):
+                m = fixed[k] if k < len(fixed) else og.module()
                 try:
                     text = pvl.dumps(m, encoder=encio.make_encoder(enc, {}))
                 except (ValueError, TypeError):
@@ -175,14 +179,14 @@ def run(ctx):
                 p1 = os.path.join(tmp, "out1.lbl")
                 r1 = pvl.dump(m, p1, encoder=encio.make_encoder(enc, {}))
                 with open(p1, "rb") as f:
-                    w1 = f.read().decode("utf-8")
+                    w1 = f.read().decode("utf-8", errors="replace")
                 sio = _io.StringIO()
                 r2 = pvl.dump(m, sio, encoder=encio.make_encoder(enc, {}))
                 bio = _io.BytesIO()
                 r3 = pvl.dump(m, bio, encoder=encio.make_encoder(enc, {}))
                 evals += 3
                 # text-mode files translate '\n' on this platform to '\n' (no change); compare content
-                if bad is None and not (w1 == text and sio.getvalue() == text and bio.getvalue().decode() == text):
+                if bad is None and not (w1 == text and sio.getvalue() == text and bio.getvalue() == text.encode("utf-8")):
                     bad = {"what": "dump() to a path / text stream / binary stream did not write exactly the text of dumps()",
                            "encoder": enc, "module": io.py_to_j(m)}
                 elif bad is None and not (r1 == len(text) and r2 == len(text) and r3 == len(text.encode())):
